@@ -1,4 +1,5 @@
 """Driver of engine C: extract -> validate -> encode -> decide -> (exact re-check, refine) -> replay."""
+import os
 import json, os, subprocess, time, threading, tempfile
 from . import core, solvers, csmt
 from .core import HOLDS, VIOLATION, INCONCLUSIVE
@@ -211,17 +212,57 @@ def decide(run, ob, family, op, params, ins, spec, k=10, timeout=60, drop=(), mo
             if it[0] == "mul" and all(isinstance(x, int) or x in pinned_vals for x in (it[2], it[3])):
                 pinned_vals[it[1]] = hon_exact[it[1]]
         seed_pins = [f"(assert (= {n} {v}))" for n, v in pinned_vals.items()]
-    phase = "seeded" if seed_pins else "full"
+    # Second family of seeded searches (under-constrained selector / flag cells): inputs pinned as above and
+    # ONE witness cell whose honest value is a bit pinned to the opposite bit. With that cell constant the
+    # products it occurs in are linear, so a forged output is found at once when the cell is not bound
+    # (e.g. a constant witnessed with assign_advice instead of copied from a fixed cell). Budgeted: at most
+    # 8 cells, short time-outs; like the first pre-pass it can only FIND violations, never decide HOLDS.
+    seed_queue = [(seed_pins, max(10, timeout // 3))] if seed_pins else []
+    if seed_pins:
+        io_names = in_names | {a for a in Oat if not isinstance(a, int)}
+        cands = sorted(n for n in e.vars.values() if n not in io_names and hon_exact.get(n) in (0, 1))
+        name2cls = {nm: c for c, nm in e.vars.items()}
+        if cands:
+            rot = core.seed() % len(cands)
+            cands = cands[rot:] + cands[:rot]
+        for n in cands[:8]:
+            # everything keeps its honest value except: the flipped cell, the cells sharing a gate row with
+            # it (they must be able to follow the flip) and the outputs
+            ncls = name2cls[n]
+            free = set()
+            for g in system.d["gates"]:
+                cs_ = {system.cls(c) for _, cells in g["poly"] for c in cells}
+                if ncls in cs_:
+                    free |= cs_
+            free_names = {e.vars[c] for c in free if c in e.vars} - in_names
+            free_names |= {a for a in Oat if not isinstance(a, int)}
+            pv = {a: hon_exact[a] for a in e.vars.values() if a in hon_exact and a not in free_names}
+            pv[n] = 1 - hon_exact[n]
+            for it in e.order:   # products of pinned cells are constants (computed exactly, not taken from the honest run)
+                if it[0] == "mul" and all(isinstance(x, int) or x in pv for x in (it[2], it[3])):
+                    va, vb = (x if isinstance(x, int) else pv[x] for x in (it[2], it[3]))
+                    pv[it[1]] = va * vb % P
+            fl = [f"(assert (= {a} {v}))" for a, v in pv.items()]
+            seed_queue.insert(len(seed_queue) - 1, (fl, 6))    # cheap near-ground queries first, the plain seeded query last
+    phase = "seeded" if seed_queue else "full"
+    flip_budget = 16.0
     rnd = -1
     while rnd < 8:
         rnd += 1
         atoms = names + [it[1] for it in e.order]
         if phase == "seeded":
-            r = solvers.solve(e.text(extra + seed_pins + getattr(e, "raw_ff_lines", [])), timeout=max(10, timeout // 3), get_values=atoms)
+            pins_now, tmo_now = seed_queue[0]
+            r = solvers.solve(e.text(extra + pins_now + getattr(e, "raw_ff_lines", [])), timeout=tmo_now, get_values=atoms)
             ob.queries += 1
             ob.solver_s += r.time_s
+            if pins_now is not seed_pins:
+                flip_budget -= r.time_s
+            if os.environ.get("VERIF_DEBUG"):
+                run.log(f"  dbg {ob.id} seeded variant ({len(pins_now)} pins, flip={pins_now is not seed_pins}) -> {r.status} {r.time_s:.1f}s rnd={rnd}")
             if r.status != "sat":
-                phase = "full"
+                seed_queue.pop(0)
+                if not seed_queue or flip_budget <= 0:
+                    phase = "full"
                 rnd = -1
                 continue
         else:
